@@ -46,8 +46,9 @@ def leaf_replay(pid, L, res):
     tb = lambda e: z3.is_true(m.eval(e, model_completion=True))
     hdr = L.I("parent_hash") + L.I("block_number") + L.I("state_root") + L.I("extrinsics_root") + L.I("zk_tree_root") + L.I("digest")
     flags = {
-        "to_account": tb(csxlib.eq4(L.to, sp.hash(sp.hash(salt_w + secret)))),
-        "nullifier": tb(csxlib.eq4(L.nullifier, sp.hash(sp.hash(salt_n + secret + L.tc)))),
+        # consistency with what the CIRCUIT hashes (its own sub-circuit inputs), which is what the emitter recomputes with the real hash
+        "to_account": tb(csxlib.eq4(L.to, sp.hash(sp.hash(salt_w + L.I("ua_secret"))))),
+        "nullifier": tb(csxlib.eq4(L.nullifier, sp.hash(sp.hash(salt_n + secret + L.I("null_tc"))))),
         "tree_root_eq_root": tb(csxlib.eq4(L.I("zk_tree_root"), L.root)),
         "block_hash": tb(csxlib.eq4(L.bh, sp.hash(hdr))),
         "secret_shared": tb(csxlib.eq4(L.I("ua_secret"), secret)),
